@@ -124,13 +124,38 @@ def vid(v) -> int:
 
 
 def to_y0(g):
+    """The y0 graph of a case. One graph in five (chosen by the case itself, so reproducibly) is built the way an analyst edits a graph:
+    part of the edges, some queries (which a careless cache would remember), then the rest of the edges through the public add_* methods.
+    The underlying networkx graphs receive nodes and edges in the same order either way."""
     from y0.graph import NxMixedGraph
+    import zlib
 
-    return NxMixedGraph.from_edges(
-        nodes=[V(i) for i in g["nodes"]],
-        directed=[(V(a), V(b)) for a, b in g["dir"]],
-        undirected=[(V(a), V(b)) for a, b in g["bid"]],
-    )
+    nodes = [V(i) for i in g["nodes"]]
+    directed = [(V(a), V(b)) for a, b in g["dir"]]
+    undirected = [(V(a), V(b)) for a, b in g["bid"]]
+    if zlib.crc32(repr((g["nodes"], g["dir"], g["bid"])).encode()) % 5 != 0 or not (directed or undirected):
+        return NxMixedGraph.from_edges(nodes=nodes, directed=directed, undirected=undirected)
+    kd, ku = len(directed) // 2, len(undirected) // 2
+    # nodes at the end of the node list that the first batch of edges does not touch are added later too (same final node order)
+    early = {x for e in directed[:kd] + undirected[:ku] for x in e}
+    kn = len(nodes)
+    while kn > 1 and nodes[kn - 1] not in early:
+        kn -= 1
+    gr = NxMixedGraph.from_edges(nodes=nodes[:kn], directed=directed[:kd], undirected=undirected[:ku])
+    for query in (lambda: gr.disorient(), lambda: gr.districts(), lambda: gr.topological_sort(), lambda: gr.moralize(),
+                  lambda: gr.ancestors_inclusive(nodes[0]), lambda: gr.descendants_inclusive(nodes[0]),
+                  lambda: gr.get_markov_blanket(nodes[0]), lambda: gr.is_connected(), lambda: gr.joint()):
+        try:
+            query()
+        except Exception:  # noqa: BLE001  -- a warm-up query may not apply to this graph (cycles, ...)
+            pass
+    for v in nodes[kn:]:
+        gr.add_node(v)
+    for a, b in directed[kd:]:
+        gr.add_directed_edge(a, b)
+    for a, b in undirected[ku:]:
+        gr.add_undirected_edge(a, b)
+    return gr
 
 
 def from_y0(gr) -> dict:
